@@ -28,6 +28,11 @@ pub assume_specification<T: std::cmp::Ord>[std::cmp::min](a: T, b: T) -> (r: T)
         T::obeys_cmp_spec() ==> (r == if a.cmp_spec(&b) == core::cmp::Ordering::Greater { b } else { a }),
 ;
 
+// [trusted:assumed-spec] u32::abs_diff is the absolute difference (not used by the current tree; keeps rewrites of height comparisons decidable)
+pub assume_specification[u32::abs_diff](a: u32, b: u32) -> (r: u32)
+    ensures r == if a >= b { a - b } else { b - a },
+;
+
 // [trusted:assumed-spec] <[T]>::reverse reverses the slice in place
 pub assume_specification<T>[<[T]>::reverse](s: &mut [T])
     ensures final(s)@ == old(s)@.reverse(),
